@@ -18,6 +18,9 @@ type RuntimeOpts struct {
 	TrailingSlash bool
 	// RenamedQuery sometimes gives a query parameter a wire name different from its field name.
 	RenamedQuery bool
+	// OptionalPath sometimes binds a path variable to a proto3 `optional` field (a pointer in the
+	// generated Go struct) and to names protoc-gen-go spells differently from a naive CamelCase.
+	OptionalPath bool
 }
 
 var urlFieldNames = []string{"user_id", "org", "page", "q", "name", "ratio", "flag", "item_id", "limit", "cursor", "since", "tenant_name"}
@@ -71,8 +74,16 @@ func GenRuntimeFile(r *R, idx int, o RuntimeOpts) *ir.Request {
 		}
 		path := fmt.Sprintf("/r%d", i)
 		for v := 0; v < nvars; v++ {
-			fn := uniqueName(used, Pick(r, urlFieldNames))
-			in.Fields = append(in.Fields, &ir.Field{Name: fn, Number: no, Kind: Pick(r, PathScalarKinds)})
+			pool := urlFieldNames
+			if o.OptionalPath {
+				pool = append(append([]string{}, urlFieldNames...), "with2digits", "x2_y", "a_1b")
+			}
+			fn := uniqueName(used, Pick(r, pool))
+			pf := &ir.Field{Name: fn, Number: no, Kind: Pick(r, PathScalarKinds)}
+			if o.OptionalPath && r.P(1, 3) {
+				pf.Card = "optional"
+			}
+			in.Fields = append(in.Fields, pf)
 			no++
 			path += "/{" + fn + "}"
 			if r.Bool() {
